@@ -183,8 +183,13 @@ def check_vector_map(fx, rep):
             ok = field_of_self(t, cnt)
         else:
             ok = t[0] == "bin" and t[1] == "Eq" and ((field_of_self(t[2], cnt) and t[3] == ("lit", "0")) or (field_of_self(t[3], cnt) and t[2] == ("lit", "0")))
-            if not ok and t[0] == "call":
-                ok = "is_empty" in str(t[1]) or "len" in str(t[1])
+            if not ok:
+                # `self.len() == 0` (delegation to the counter's reader); the backing vector never shrinks, so asking *it* whether
+                # it is empty is not the same question
+                def reads_len(x):
+                    return x[0] == "call" and isinstance(x[1], str) and F.strip_generics(x[1]).endswith("VectorMap::len") and x[2] and x[2][0][0] == "local" and x[2][0][2] == "self"
+
+                ok = t[0] == "bin" and t[1] == "Eq" and ((reads_len(t[2]) and t[3] == ("lit", "0")) or (reads_len(t[3]) and t[2] == ("lit", "0")))
         rep.oblige(ok, "R19.1", f"reader:{name}", F.loc(b["span"]), f"VectorMap::{name} returns `{T.short(t)}` instead of reading the `{cnt}` counter", sample={"rule": "R19.1", "fn": name, "returns": T.short(t)})
     # growth pads with None; the write stores Some(value) at key.index() --------------------
     ins = fns.get("insert")
@@ -386,6 +391,21 @@ def check_disjoint_set(fx, rep):
                 if k == v and k[0] == "local":
                     ok = True
         rep.oblige(ok, "R19.4", "insert-singleton", F.loc(i["span"]), "insert must make the new element its own representative")
+        # ... and only a *new* element: re-pointing a known element at itself takes it (and what hangs below it) out of its set
+        guarded = False
+        for n, ps in F.calls(root):
+            if n.get("k") == "MethodCall" and n["method"] == "insert" and field_of_self(T.term(n["recv"], T.Env()), reps):
+                for anc, key in ps:
+                    if anc.get("k") == "If" and key in ("then", "else"):
+                        ct = T.term(anc["cond"], T.Env())
+                        looks_up = any(st[0] == "call" and isinstance(st[1], str) and F.strip_generics(st[1]).split("::")[-1] in ("get", "contains_key", "contains") and st[2] and field_of_self(st[2][0], reps) for st in T.subterms(ct))
+                        if looks_up:
+                            guarded = True
+                for cond, holds in T.path_conditions(ps, n):
+                    ct = T.term(cond, T.Env())
+                    if any(st[0] == "call" and isinstance(st[1], str) and F.strip_generics(st[1]).split("::")[-1] in ("get", "contains_key", "contains") and st[2] and field_of_self(st[2][0], reps) for st in T.subterms(ct)):
+                        guarded = True
+        rep.oblige(guarded, "R19.4", "insert-only-new", F.loc(i["span"]), "insert re-points an element that is already known at itself: an element that had been joined to another set is split off again (with everything whose parent link goes through it) and loses the set's data")
 
 
 def check_combine(fx, rep):
